@@ -31,12 +31,14 @@ def If(c, a, b=None): return {"t": "if", "c": c, "a": a, "b": b if b is not None
 def Say(x): return {"t": "say", "x": x}
 def Probe(k): return {"t": "probe", "k": k}
 def Raise(kind, msg): return {"t": "raise", "kind": kind, "msg": msg}
-def PCall(r, n, args=(), kw=(), add=""):
-    return {"t": "pcall", "r": r if r is not None else NONE, "n": n, "args": list(args), "kw": [{"k": k, "v": v} for k, v in kw], "add": add}
-def Call(f, args=(), kw=()): return dict(PCall(f, "call", args, kw), sugar="call")
+def PCall(r, n, args=(), kw=(), add="", lay=0):
+    """lay: where the keyword arguments are written: 0 after, 1 before, 2 after the first positional argument"""
+    return {"t": "pcall", "r": r if r is not None else NONE, "n": n, "args": list(args), "kw": [{"k": k, "v": v} for k, v in kw], "add": add, "lay": lay}
+def Call(f, args=(), kw=(), lay=0): return dict(PCall(f, "call", args, kw, lay=lay), sugar="call")
 def Idx(x, i): return dict(PCall(x, "at", [Arr(i)]), sugar="index")
 def LCall(r, fn): return {"t": "lcall", "r": r, "fn": fn}
 def Try(r, fn, acc): return {"t": "try", "r": r, "fn": fn, "acc": acc}
+def Raw(s): return {"t": "rawsrc", "s": s}           # outside PanEval (unsupported), printed verbatim
 def Jump(k, x, g=None): return {"t": "jump", "k": k, "x": x, "g": g if g is not None else NONE}
 
 
@@ -60,7 +62,8 @@ def src(e):
     if t == "inf":
         return f"({src(e['l'])} {e['op']} {src(e['r'])})"
     if t == "pre":
-        return f"({e['op']}{src(e['x'])})"
+        x = src(e["x"])         # prefix operators bind tighter than chains: parenthesise anything that is not atomic
+        return f"({e['op']}{x})" if e["x"]["t"] in ("int", "id", "str", "nil", "true", "false") or x.startswith("(") else f"({e['op']}({x}))"
     if t == "arr":
         return "[" + ", ".join(src(x) for x in e["es"]) + "]"
     if t == "spread":
@@ -89,7 +92,19 @@ def src(e):
     if t == "raise":
         return f"{e['kind']}.new(\"{e['msg']}\")"
     if t == "pcall":
-        args = [src(a) for a in e["args"]] + [f"{p['k']}: {src(p['v'])}" for p in e["kw"]]
+        pa = [src(a) for a in e["args"] if a["t"] != "dspread"]
+        ka = [f"{p['k']}: {src(p['v'])}" for p in e["kw"]]
+        da = [src(a) for a in e["args"] if a["t"] == "dspread"]      # the grammar wants **expansions last
+        lay = e.get("lay", 0)
+        args = (pa + ka if lay == 0 else ka + pa if lay == 1 else pa[:1] + ka + pa[1:]) + da
+        ml = e.get("ml")
+        if ml and len(args) > 1:      # multi-line call: every argument on its own line, indentation pattern ml
+            ind = {1: [8, 6, 4, 2, 1, 0], 2: [0, 2, 4, 6, 8, 10], 3: [6, 1, 9, 3, 7, 0]}[ml]
+            joined = args[0] + "".join(",\n" + " " * ind[i % len(ind)] + a for i, a in enumerate(args[1:]))
+            if e.get("sugar") == "call":
+                return f"{src(e['r'])}({joined})"
+            recv = src(e["r"]) if e["r"]["t"] != "none" else ""
+            return f"{recv}{e['add']}.{e['n']}({joined})"
         if e.get("sugar") == "call":
             return f"{src(e['r'])}({', '.join(args)})"
         if e.get("sugar") == "index":
@@ -97,6 +112,8 @@ def src(e):
         recv = src(e["r"]) if e["r"]["t"] != "none" else ""
         chain = e["add"] + "."
         return f"{recv}{chain}{e['n']}" + (f"({', '.join(args)})" if args else "")
+    if t == "rawsrc":
+        return "(" + e["s"] + ")"
     if t == "lcall":
         return f"{src(e['r'])}.{src(e['fn'])}"
     if t == "try":
